@@ -53,6 +53,8 @@ def run(ctx: Ctx):
         "decides joint positive homogeneity only -- a necessary condition of being the exact prox for every input and parameter (prox(c v; c r) = c prox(v; r)); feasibility, optimality, idempotence and non-expansiveness are NOT decided",
         "unit table (confirmed by reading the documented prox problems): thresholds of soft / singular-value thresholding, the l2 block threshold and the radius of the l1 ball / simplex carry the unit of the data; l2-square and smoothness coefficients are dimensionless; sparsity levels are counts",
     )
+    res.rule("K-BY-RANK", "hard_thresholding (and through it normalised sparsity) keeps exactly k entries: the selecting comparison is between argsort ranks and the count, never between magnitudes and a cut-off magnitude (ties would keep more than k)", floor=1)
+    ctx.guarded(k_by_rank, ctx)
     ctx.guarded(
         run_units,
         ctx,
@@ -61,3 +63,80 @@ def run(ctx: Ctx):
         "V = unit of the tensor and of a threshold / radius",
         "the operator is not jointly homogeneous in (tensor, parameter), so it cannot be the exact prox of a norm-type penalty / projection for every input",
     )
+
+
+# ---------------------------------------------------------------------------------
+# K-BY-RANK: "keep the k largest" must select by rank, not by value
+# ---------------------------------------------------------------------------------
+K_SPARSE = [("tensorly.tenalg.proximal.hard_thresholding", "number_of_non_zero")]
+
+
+def k_by_rank(ctx: Ctx):
+    """A projection onto the k-sparse set keeps *exactly* k entries.  Selecting by rank
+    (`argsort` positions compared with the count k) does; selecting by value (magnitudes
+    compared with a cut-off magnitude) keeps every entry tied with the cut-off, i.e. more
+    than k whenever magnitudes tie -- the result is then not k-sparse.  (The same principle
+    as C01 SHAPE-BY-POSITION: values are not unique keys.)"""
+    import ast
+
+    from ..common import call_name, is_name, src
+    from ..model import AnalysisError, own_scope_nodes
+
+    res = ctx.res
+    for q, kparam in K_SPARSE:
+        f = ctx.repo.func(q)
+        if kparam not in f.all_params:
+            raise AnalysisError(f"K-BY-RANK: {q} no longer has the count parameter `{kparam}`")
+        kinds = {kparam: "COUNT"}
+        for p in f.all_params:
+            kinds.setdefault(p, "VALUE")
+
+        def kind(e):
+            if isinstance(e, ast.Name):
+                return kinds.get(e.id)
+            if isinstance(e, ast.Constant):
+                return "CONST"
+            if isinstance(e, ast.Call):
+                nm = call_name(e)
+                if nm == "argsort":
+                    return "RANK"
+                if nm in ("int", "min", "max", "len", "shape") and e.args:
+                    ks = {kind(a) for a in e.args}
+                    if "COUNT" in ks:
+                        return "COUNT"
+                if e.args:
+                    return kind(e.args[0])
+                return None
+            if isinstance(e, ast.Subscript):
+                return kind(e.value)
+            if isinstance(e, ast.BinOp):
+                ks = {kind(e.left), kind(e.right)} - {"CONST", None}
+                return ks.pop() if len(ks) == 1 else None
+            if isinstance(e, ast.UnaryOp):
+                return kind(e.operand)
+            return None
+
+        changed = True
+        while changed:
+            changed = False
+            for s in own_scope_nodes(f.node):
+                if isinstance(s, ast.Assign) and len(s.targets) == 1 and isinstance(s.targets[0], ast.Name):
+                    k = kind(s.value)
+                    if k is not None and kinds.get(s.targets[0].id) != k and s.targets[0].id not in f.all_params:
+                        kinds[s.targets[0].id] = k
+                        changed = True
+        sels = []
+        for c in own_scope_nodes(f.node):
+            if isinstance(c, ast.Call) and call_name(c) == "where" and c.args and isinstance(c.args[0], ast.Compare) and len(c.args[0].ops) == 1:
+                sels.append(c)
+            if isinstance(c, ast.Subscript) and isinstance(c.slice, ast.Compare) and len(c.slice.ops) == 1:
+                sels.append(c)
+        if not sels:
+            raise AnalysisError(f"K-BY-RANK: no selecting comparison found in {q}; the rule's anchor vanished")
+        for c in sels:
+            t = c.args[0] if isinstance(c, ast.Call) else c.slice
+            kl, kr = kind(t.left), kind(t.comparators[0])
+            ok = {kl, kr} == {"RANK", "COUNT"}
+            res.instance("K-BY-RANK", f"{f.name}: {src(t)[:60]}", sample={"line": t.lineno, "left": kl, "right": kr, "ok": ok})
+            if not ok and "VALUE" in (kl, kr):
+                ctx.finding("K-BY-RANK", f, t, f"`{src(t)[:80]}` selects the entries to keep by comparing VALUES ({kl} vs {kr}): every entry tied with the cut-off survives, so more than `{kparam}` entries are kept whenever magnitudes tie and the result is not k-sparse. Select by rank (argsort positions compared with the count)", construct=f"{f.name}: selection by value {src(t)[:60]}")
